@@ -1,12 +1,13 @@
 #!/usr/bin/env python3
-"""refactor_check.py [Rxx ...]   apply each behaviour-preserving refactoring kept under /verif/refactors/<id>/patch.diff to /repo,
+"""refactor_check.py [--obligations] [Rxx ...]   apply each behaviour-preserving refactoring kept under /verif/refactors/<id>/patch.diff to /repo,
 run every check (quick), undo it, and record which checks reported a violation (none should: the properties hold).
 The evidence files are restored afterwards (evidence must come from runs on the unchanged tree)."""
 import sys, os, subprocess, json
 def sh(cmd, cwd=None, timeout=3600):
     p = subprocess.run(cmd, shell=True, cwd=cwd, capture_output=True, text=True, timeout=timeout)
     return p.returncode, p.stdout + p.stderr
-ids = sys.argv[1:] or sorted(os.listdir('/verif/refactors'))
+obl_only = '--obligations' in sys.argv
+ids = [a for a in sys.argv[1:] if not a.startswith('--')] or sorted(os.listdir('/verif/refactors'))
 props = ['C%02d' % i for i in range(1, 21)]
 for rid in ids:
     d = f'/verif/refactors/{rid}'
@@ -17,7 +18,7 @@ for rid in ids:
     res = {}
     try:
         for c in props:
-            rc, out = sh(f'bin/check {c}', cwd='/verif')
+            rc, out = sh(('VERIF_OBLIGATIONS_ONLY=1 ' if obl_only else '') + f'bin/check {c}', cwd='/verif')
             lines = [l for l in out.splitlines() if not l.startswith('KNOWN-FINDING')]
             viol = [l for l in lines if l.startswith('VIOLATION')]
             res[c] = dict(exit=rc, violations=len(viol), summary=lines[-1] if lines else '', first=viol[0] if viol else '')
@@ -33,5 +34,6 @@ for rid in ids:
         for f in os.listdir('/verif/replays'):
             if f.endswith('.json'): os.remove(os.path.join('/verif/replays', f))
     alarms = [c for c, r in res.items() if r['violations'] > 0 or r['exit'] != 0]
-    json.dump(dict(id=rid, kind='behaviour-preserving refactoring', checks=res, alarms=alarms), open(f'{d}/meta.json', 'w'), indent=1)
+    json.dump(dict(id=rid, kind='behaviour-preserving refactoring', mode='obligations only (tie T1 + proofs, no drivers)' if obl_only else 'full quick checks',
+                   checks=res, alarms=alarms), open(f'{d}/meta.json', 'w'), indent=1)
     print(rid, 'alarms:', alarms, flush=True)
